@@ -172,10 +172,17 @@ impl Socket for UdpSocketImpl {
     fn local_addr(&self) -> std::io::Result<SocketAddr> { self.socket.local_addr() }
 }
 
+#[cfg(not(gamedig_verif))]
 #[cfg(not(feature = "packet_capture"))]
 pub type UdpSocket = UdpSocketImpl;
+#[cfg(not(gamedig_verif))]
 #[cfg(not(feature = "packet_capture"))]
 pub type TcpSocket = TcpSocketImpl;
+
+#[cfg(all(gamedig_verif, not(feature = "packet_capture")))]
+pub type UdpSocket = crate::verif_hook::HookedUdpSocket;
+#[cfg(all(gamedig_verif, not(feature = "packet_capture")))]
+pub type TcpSocket = crate::verif_hook::HookedTcpSocket;
 
 #[cfg(feature = "packet_capture")]
 pub(crate) type UdpSocket = crate::capture::socket::CapturedUdpSocket;
